@@ -51,6 +51,8 @@ def explore(ctx, n_req, n_conf, n_real, stream='c09'):
     for _ in range(n_conf):
         cfg = c08.gen_cfg(r, 'conformant'); cfg['required'] = True; cfg['joins'] = True
         run, stuck = c08.script_conformant(r, cfg, noise=r.choice([0, 0, 0.1]))
+        if stuck and any(p == 'req_after_end' for p, _ in c08.safety_oracle(run.ops, run.obs, run.cfg)):
+            stuck = False        # the stall of finding C08-req-after-end (a C08 statement, recorded there)
         cases.append(make_req_case(run, 'required-conformant', stuck))
     for _ in range(n_real):
         run = c08.script_real(r, c08.gen_real_cfg(r), r.randint(1, 8))
